@@ -17,7 +17,7 @@ pub fn edge_driver(out: &str, seed: u64, n: u64) {
     let mut r = Recorder::new(&format!("{}/edge.trace", out), base_setup());
     let (mut nbk, mut nkill, mut nclose, mut nutil) = (0u64, 0u64, 0u64, 0u64);
     for k in 0..n {
-        match k % 13 {
+        match k % 14 {
             0 => {
                 // ---- exact wipe: the sole borrower drew every deposited token (or all but delta), no fees, no time (or a
                 // second), empty or tiny insurance; collateral made worthless; bankruptcy. Uncovered loss =, <, > deposits.
@@ -25,7 +25,7 @@ pub fn edge_driver(out: &str, seed: u64, n: u64) {
                 let x: u64 = *pick(&mut rng, &[1_000_000u64, 123_456_789, 7, 50_000_000_000]);
                 // (loss = deposits, deposits - 1, deposits - 2; insurance empty, a unit, half, all, more than the debt)
                 let combos: [(u64, u64); 8] = [(0, 0), (1, 0), (0, 1), (0, x.saturating_add(5)), (2, 0), (0, x / 2), (0, x.saturating_mul(3)), (1, x)];
-                let (delta, ins) = combos[((k / 13) % 8) as usize];
+                let (delta, ins) = combos[((k / 14) % 8) as usize];
                 let two_lenders = rng.gen_bool(0.4);
                 let mut extra = vec![];
                 plain_bank("D1", dec, "spl", "1", json!({"ir":{"orig_fee":"0"}}), &mut extra);
@@ -512,7 +512,7 @@ pub fn edge_driver(out: &str, seed: u64, n: u64) {
                 extra.push(json!({"op":"fund","user":"U1","mint":"M.D1","amount":"4000000000000000000"}));
                 extra.push(json!({"op":"fund","user":"U1","mint":"M.C1","amount":"4000000000000000000"}));
                 r.begin(&extra);
-                let below = (k / 13) % 2 == 0;
+                let below = (k / 14) % 2 == 0;
                 r.act(json!({"op":"deposit","acct":"LP","bank":"D1","amount":50_000_000}));
                 r.act(json!({"op":"deposit","acct":"A1","bank":"C1","amount":1_000_000_000}));
                 r.act(json!({"op":"deposit","acct":"A1","bank":"D1","amount":1000}));
@@ -600,6 +600,49 @@ pub fn edge_driver(out: &str, seed: u64, n: u64) {
                 r.act(json!({"op":"migrate_curve","bank":"D1"}));
                 r.act(json!({"op":"repay","acct":"A1","bank":"D1","amount":0,"all":true}));
                 r.act(json!({"op":"configure_interest","bank":"D1","ir":{"ins_ir":"0.05"}}));
+            }
+            13 => {
+                // ---- a liquidator that already holds several positions, one of them in the bank it seizes from and none in the
+                // debt bank: the liquidation opens exactly one new position (the debt) and adds to the existing one; if the
+                // canonical account list is refused, lists naming one of the liquidator's banks twice are tried, as a client
+                // confronted with the refusal might
+                let mut extra = vec![];
+                for i in 1..=5u32 {
+                    plain_bank(&format!("K{}", i), 6, "spl", "1", json!({"aw_init":"0.8","aw_maint":"0.9","ir":{"orig_fee":"0"}}), &mut extra);
+                    extra.push(json!({"op":"fund","user":"U2","mint":format!("M.K{}", i),"amount":"4000000000000"}));
+                    extra.push(json!({"op":"fund","user":"U1","mint":format!("M.K{}", i),"amount":"4000000000000"}));
+                }
+                plain_bank("DB", 6, "spl", "1", json!({"ir":{"orig_fee":"0"}}), &mut extra);
+                extra.push(json!({"op":"fund","user":"U9","mint":"M.DB","amount":"4000000000000"}));
+                r.begin(&extra);
+                let nhold = *pick(&mut rng, &[2usize, 3, 4, 4, 5]);
+                let asset = rng.gen_range(1..=nhold);
+                let ab = format!("K{}", asset);
+                r.act(json!({"op":"deposit","acct":"LP","bank":"DB","amount":"1000000000000"}));
+                r.act(json!({"op":"deposit","acct":"A1","bank":ab,"amount":1_000_000_000u64}));
+                r.act(json!({"op":"borrow","acct":"A1","bank":"DB","amount":600_000_000u64}));
+                for i in 1..=nhold {
+                    r.act(json!({"op":"deposit","acct":"A2","bank":format!("K{}", i),"amount":5_000_000_000u64}));
+                }
+                r.act(json!({"op":"set_fixed_price","bank":ab,"price":"1/2"}));
+                let l = json!({"op":"liquidate","liquidator":"A2","liquidatee":"A1","asset_bank":ab,"liab_bank":"DB","amount": *pick(&mut rng, &[1000u64, 50_000_000])});
+                let ev = r.act(l.clone());
+                if ev["res"] != "ok" {
+                    // the liquidator's list after the liquidation has nhold + 1 banks; name each of them twice in turn
+                    let npos = nhold + 1;
+                    for dup in 0..npos {
+                        let mut idx: Vec<usize> = (0..npos).collect();
+                        idx.insert(dup + 1, dup);
+                        let mut l2 = l.clone();
+                        l2["rem_perm"] = json!({"A2": idx});
+                        r.fork(&mut |r: &mut Recorder| {
+                            r.act(l2.clone());
+                            r.act(json!({"op":"pulse_health","acct":"A2"}));
+                        });
+                    }
+                }
+                r.act(json!({"op":"pulse_health","acct":"A2"}));
+                r.act(json!({"op":"withdraw","acct":"A2","bank":ab,"amount":1}));
             }
             _ => {
                 // ---- a solvent account in a collateral bank whose collateral-value cap is lowered far below its deposits
